@@ -329,7 +329,8 @@ class perdictable(wrapper):
 
             ### rows to be run because has not expired
             today = dt(0)
-            run_expiry = [value is None or dt(value)>=today for value in ds[_expiry]]
+            # an expiry that is the missing date (pd.NaT, np.datetime64('NaT'), 'NaT': what None becomes in pandas) is no expiry, like None: NaT>=today is False
+            run_expiry = [value is None or not dt(value)<today for value in ds[_expiry]]
             
             ## default values if function is not run
             cache = ds[col] if col in ds.keys() else [None]*len(ds)            
@@ -374,7 +375,8 @@ class perdictable(wrapper):
 
             ### rows to be run because has not expired
             today = dt(0)
-            run_expiry = [value is None or dt(value)>today for value in ds[_expiry]]
+            # an expiry that is the missing date (pd.NaT, np.datetime64('NaT'), 'NaT': what None becomes in pandas) is no expiry, like None: NaT>today is False
+            run_expiry = [value is None or not dt(value)<=today for value in ds[_expiry]]
             
             ## default values if function is not run
             cache = ds(**{key : None for key in missing_cols})[cols]            
